@@ -175,6 +175,9 @@ Qed.
 
 (* an entry is "original" (from the decompositions) or closed *)
 Lemma equivalences_spec e2p d0 : forall labels d d',
+  (* the find_path contract is only needed for the labels iterated over *)
+  (forall l, In l labels -> forall t, rep l = rep t ->
+     fpath l t <> [] /\ hd O (fpath l t) = l /\ last (fpath l t) O = t) ->
   equivalences d e2p labels = Some d' ->
   (forall q p, In (q, p) e2p -> dom d0 p = true /\ rep p = q) ->
   (forall x, dom d0 x = true -> dom d x = true) ->
@@ -185,14 +188,17 @@ Lemma equivalences_spec e2p d0 : forall labels d d',
   (forall l, In l labels -> dom d' l = true) /\
   (forall e, In e d' -> In e d \/ exists l t p c, step_of (fpath l t) p c /\ e = (p, [c])).
 Proof.
-  induction labels as [|l t IH]; intros d d' H He Hd0 Hc; simpl in H.
+  induction labels as [|l t IH]; intros d d' Hfp H He Hd0 Hc; simpl in H.
   - injection H as <-. repeat split; auto; try (intros l []).
   - destruct (e2p_get e2p (rep l)) as [target|] eqn:Et; [|discriminate].
     apply e2p_get_in in Et. destruct (He _ _ Et) as [Htd Hrep].
-    destruct (fpath_ok l target (eq_sym Hrep)) as (Hne & Hhd & Hlast).
+    destruct (Hfp l (or_introl eq_refl) target (eq_sym Hrep)) as (Hne & Hhd & Hlast).
+    assert (forall l0, In l0 t -> forall t0, rep l0 = rep t0 ->
+              fpath l0 t0 <> [] /\ hd O (fpath l0 t0) = l0 /\ last (fpath l0 t0) O = t0) as Hfp'
+      by (intros l0 Hl0; apply Hfp; right; exact Hl0).
     destruct (add_path_spec (fpath l target) d) as (A & B & C & D).
     rewrite Hlast in D. destruct (D (Hd0 _ Htd) Hne) as [Dh Dc]. rewrite Hhd in Dh.
-    destruct (IH _ _ H He) as (A' & B' & C' & D' & E').
+    destruct (IH _ _ Hfp' H He) as (A' & B' & C' & D' & E').
     + intros x Hx. apply A, Hd0, Hx.
     + intros e Hin. destruct (Dc e Hin) as [H1|H1]; auto.
       destruct (Hc e H1) as [H2|H2]; auto. right. eapply entry_closed_mono; eauto.
@@ -206,8 +212,11 @@ Proof.
         right. exists l, target, p, c. auto.
 Qed.
 
-(* the rules dictionary handed to the specification *)
-Theorem extract_closed stored tree root order d :
+(* the rules dictionary handed to the specification; the find_path contract is asked only for
+   the labels of `order` (the labels the extractor really calls find_path on) *)
+Theorem extract_closed_order stored tree root order d :
+  (forall l, In l order -> forall t, rep l = rep t ->
+     fpath l t <> [] /\ hd O (fpath l t) = l /\ last (fpath l t) O = t) ->
   extract rep fpath stored tree root order = Some d ->
   (* the iteration covers the labels _no_lhs_labels() computes on the decompositions *)
   (forall d0 e2p, decompositions stored tree [] [] = Some (d0, e2p) ->
@@ -216,12 +225,12 @@ Theorem extract_closed stored tree root order d :
   dom d root = true /\
   (forall e, In e d -> In e stored \/ exists l t p c, step_of (fpath l t) p c /\ e = (p, [c])).
 Proof.
-  unfold extract. intros H Hcov.
+  unfold extract. intros Hfp H Hcov.
   destruct (decompositions stored tree [] []) as [[d0 e2p]|] eqn:Ed; [|discriminate].
   specialize (Hcov d0 e2p eq_refl).
   destruct (decompositions_spec stored tree [] [] d0 e2p Ed) as (A & B & _ & _);
     [intros e []|intros q p []|].
-  destruct (equivalences_spec e2p d0 order d0 d H B) as (M & K & C & L & S); auto.
+  destruct (equivalences_spec e2p d0 order d0 d Hfp H B) as (M & K & C & L & S); auto.
   assert (forall c, (exists e, In e d0 /\ In c (snd e)) -> dom d c = true) as Hrhs.
   { intros c (e & He & Hc). destruct (dom d0 c) eqn:Ec; [apply M; auto|].
     apply L. apply Hcov. unfold no_lhs. rewrite Ec. simpl.
@@ -235,6 +244,95 @@ Proof.
   - destruct (dom d0 root) eqn:Er; [apply M; auto|].
     apply L. apply Hcov. unfold no_lhs. rewrite Er, Nat.eqb_refl. simpl. apply orb_true_r.
   - intros e He. destruct (S e He) as [H0|H1]; auto.
+Qed.
+
+(* the same with the contract for all labels *)
+Theorem extract_closed stored tree root order d :
+  extract rep fpath stored tree root order = Some d ->
+  (forall d0 e2p, decompositions stored tree [] [] = Some (d0, e2p) ->
+     forall l, no_lhs d0 root l = true -> In l order) ->
+  (forall e, In e d -> forall c, In c (snd e) -> dom d c = true) /\
+  dom d root = true /\
+  (forall e, In e d -> In e stored \/ exists l t p c, step_of (fpath l t) p c /\ e = (p, [c])).
+Proof.
+  apply extract_closed_order. intros l _. apply fpath_ok.
+Qed.
+
+(* ---- one entry per left-hand label: the dictionary is built by assignments only ---- *)
+Lemma keys_assign d k v :
+  map fst (assign d k v) = if dom d k then map fst d else map fst d ++ [k].
+Proof.
+  unfold dom, lookup. induction d as [|a t IH]; simpl; [reflexivity|].
+  destruct (Nat.eqb (fst a) k) eqn:E; simpl.
+  - apply Nat.eqb_eq in E. rewrite E. reflexivity.
+  - rewrite IH. destruct (find (fun e => Nat.eqb (fst e) k) t); reflexivity.
+Qed.
+
+Lemma dom_false_notin d k : dom d k = false -> ~ In k (map fst d).
+Proof.
+  intros H Hin. apply in_map_iff in Hin. destruct Hin as ([k' v] & E & Hin). simpl in E. subst k'.
+  rewrite (in_dom d k v Hin) in H. discriminate.
+Qed.
+
+Lemma assign_nodup d k v : NoDup (map fst d) -> NoDup (map fst (assign d k v)).
+Proof.
+  intros H. rewrite keys_assign. destruct (dom d k) eqn:E; auto.
+  apply NoDup_rev in H. rewrite <- (rev_involutive (map fst d ++ [k])). apply NoDup_rev.
+  rewrite rev_app_distr. simpl. constructor; auto.
+  intros Hin. apply in_rev in Hin. exact (dom_false_notin d k E Hin).
+Qed.
+
+Lemma add_path_nodup : forall path d, NoDup (map fst d) -> NoDup (map fst (add_path d path)).
+Proof.
+  induction path as [|p rest IH]; intros d H; simpl; auto.
+  destruct rest as [|c rest']; auto.
+  destruct (dom d p); auto. apply IH. apply assign_nodup; auto.
+Qed.
+
+Lemma decompositions_nodup stored : forall tree d e2p d' e2p',
+  decompositions stored tree d e2p = Some (d', e2p') -> NoDup (map fst d) -> NoDup (map fst d').
+Proof.
+  induction tree as [|e t IH]; intros d e2p d' e2p' H Hd; simpl in H.
+  - injection H as <- <-. exact Hd.
+  - destruct (rule_for stored e) as [[p cs]|]; [|discriminate].
+    apply (IH _ _ _ _ H). apply assign_nodup; auto.
+Qed.
+
+Lemma equivalences_nodup e2p : forall labels d d',
+  equivalences d e2p labels = Some d' -> NoDup (map fst d) -> NoDup (map fst d').
+Proof.
+  induction labels as [|l t IH]; intros d d' H Hd; simpl in H.
+  - injection H as <-. exact Hd.
+  - destruct (e2p_get e2p (rep l)) as [target|]; [|discriminate].
+    apply (IH _ _ H). apply add_path_nodup; auto.
+Qed.
+
+Lemma nodup_lookup : forall d, NoDup (map fst d) ->
+  forall p cs, In (p, cs) d <-> lookup d p = Some cs.
+Proof.
+  unfold lookup. induction d as [|a t IH]; simpl; intros Hd p cs.
+  - split; [intros []|discriminate].
+  - inversion Hd as [|x l Hn Hd']; subst. destruct (Nat.eqb (fst a) p) eqn:E; simpl.
+    + apply Nat.eqb_eq in E. split.
+      * intros [->|Hin]; [reflexivity|]. exfalso. apply Hn. subst p.
+        apply in_map_iff. exists (fst a, cs). auto.
+      * intros [= <-]. left. destruct a; simpl in *; subst; reflexivity.
+    + rewrite <- (IH Hd' p cs). split; [intros [->|Hin]; auto|auto].
+      simpl in E. rewrite Nat.eqb_refl in E. discriminate.
+Qed.
+
+(* the rules dictionary has exactly one entry per left-hand label, and looking a label up
+   returns that entry: no class is the left-hand side of two rules *)
+Theorem extract_functional stored tree root order d :
+  extract rep fpath stored tree root order = Some d ->
+  NoDup (map fst d) /\ forall p cs, In (p, cs) d <-> lookup d p = Some cs.
+Proof.
+  unfold extract. intros H.
+  destruct (decompositions stored tree [] []) as [[d0 e2p]|] eqn:Ed; [|discriminate].
+  assert (NoDup (map fst d)) as Hd.
+  { apply (equivalences_nodup e2p order d0 d H).
+    apply (decompositions_nodup stored tree [] [] d0 e2p Ed). constructor. }
+  split; [exact Hd|apply nodup_lookup; exact Hd].
 Qed.
 
 End Proofs.
